@@ -114,7 +114,9 @@ def gen_sequence(rng, maxlen):
     n = int(rng.integers(3, maxlen + 1))
     for step in range(n):
         r = rng.random()
-        if not state_names or r < 0.22:
+        if not state_names:
+            r = [0.1, 0.4, 0.3][int(rng.integers(3))]          # an empty object may be filled through addpar, set_parameters or set
+        if r < 0.22:
             name = NAMES[int(rng.integers(len(NAMES)))]
             cv = bool(rng.random() < 0.6)
             vary = bool(cv and rng.random() < 0.5)
@@ -124,7 +126,7 @@ def gen_sequence(rng, maxlen):
             if cv and name not in canvary:
                 canvary.append(name)
         elif r < 0.36:
-            name = state_names[int(rng.integers(len(state_names)))] if rng.random() < 0.8 else NAMES[int(rng.integers(len(NAMES)))]
+            name = state_names[int(rng.integers(len(state_names)))] if (state_names and rng.random() < 0.8) else NAMES[int(rng.integers(len(NAMES)))]
             ops.append(["set", name, gen_value(rng)])
             if name not in state_names:
                 state_names.append(name)
